@@ -7,7 +7,7 @@ V = os.path.dirname(os.path.dirname(os.path.abspath(__file__)))
 D = os.path.abspath(sys.argv[1])
 want = sys.argv[2:]
 FILE_CHECKS = [("backend_req_handler.rs", ["C04", "C05", "C07", "C09"]), ("frontend.rs", ["C02", "C03", "C06", "C07", "C10"]),
-               ("connection.rs", ["C08", "C09"]), ("gpu_message.rs", ["C20", "C01"]), ("message.rs", ["C20", "C01"]),
+               ("connection.rs", ["C08", "C09"]), ("gpu_message.rs", ["C20", "C01"]), ("message.rs", ["C20", "C01", "C02"]),
                ("gpu_backend_req.rs", ["C06", "C10", "C01"]), ("backend_req.rs", ["C18", "C10"]), ("frontend_req_handler.rs", ["C18", "C06"]),
                ("vhost-user-backend/src/handler.rs", ["C11", "C13", "C14", "C15", "C17", "C12"]), ("event_loop.rs", ["C12", "C17", "C16"]),
                ("vring.rs", ["C12", "C14"]), ("bitmap.rs", ["C15"]), ("vhost-user-backend/src/lib.rs", ["C16"]),
